@@ -52,6 +52,10 @@ def cases_for(ctx):
             i0 = rng.randint(0, 8)
             cases.append({"kind": "project", "f": t, "s": s, "o": o, "hasiv": hasiv, "iv": [i0, i0 + rng.randint(0, 6)], "shape": nc + 1})
             cases.append({"kind": "prune", "f": t, "pred": rng.choice(["evencoord", "bigval", "evenpos", "all"]), "shape": nc + 1})
+    # the same traversals over fibers whose rank default is 2 (a stored 2 is the explicit default, a stored 0 is content)
+    for c in list(cases):
+        if rng.random() < (0.35 if ctx.quick else 0.6):
+            cases.append(dict(c, dflt=2))
     # wider random fibers
     for _ in range(200 if ctx.quick else 4000):
         t = {"k": "F", "e": [[c, {"k": "L", "v": rng.choice([0, 1, 2, 3])}] for c in range(10) if rng.random() < 0.5]}
